@@ -124,7 +124,7 @@ def isPartLine (fmt : Fmt) (attrs : List String) (l : LineF) (row : List String)
 /-- `float(line_split[-3])` of `OscarLoader.impact_parameter` for one footer; `nl` = the line still carries its
 newline (every line but a last line without final newline) -/
 def impactTokOf (raw : String) (nl : Bool) : Except Err String :=
-  let ts := ((raw ++ (if nl then "\n" else "")).splitOn " ").filter (fun t => t != "")
+  let ts := (splitCh ' ' (raw ++ (if nl then "\n" else ""))).filter (fun t => t != "")
   if ts.length < 3 then .error .index else
   match ts[ts.length - 3]? with
   | some t => if isPyFloat t then .ok t else .error .value
@@ -355,20 +355,28 @@ def particleList (L : Loaded) : Except Err PList :=
 /-! ### the text grammar (side conditions of `oscarText` / `jetText`)
 
 `grammarOscar F` / `grammarJet F` say which specifications the renderers are meant for: numeric tokens over the alphabet
-`[0-9+-.eE]` that Python converts, SMASH-shaped footers, JETSCAPE-shaped headers and trailer, free header lines that
-contain none of the loaders' keywords.  The classification statement "a rendered text is observed as its own
-specification" (`Props/C01.lean`: `C01_classification`) is about exactly these specifications. -/
+`[0-9+-.eE]` that Python converts, column names that are words other than the keywords `end` / `out`, SMASH-shaped
+footers, JETSCAPE-shaped headers and trailer, free header lines that contain none of the loaders' keywords and no
+newline, a non-empty version line.  The classification statement "a rendered text is observed as its own specification"
+(`Props/C01.lean`: `C01_classification`, proved as `C01_classification_holds`) is about exactly these specifications.
+The token predicates test `t.toList` so that the kernel can evaluate the grammar on concrete specifications. -/
 
 def numTok (t : String) : Bool :=
-  !t.isEmpty && t.all (fun c => c.isDigit || c == '+' || c == '-' || c == '.' || c == 'e' || c == 'E')
+  !t.isEmpty && t.toList.all (fun c => c.isDigit || c == '+' || c == '-' || c == '.' || c == 'e' || c == 'E')
 
-def blanks (p : String) : Bool := !p.isEmpty && p.all (· == ' ')
+def blanks (p : String) : Bool := !p.isEmpty && p.toList.all (· == ' ')
 
-def wordTok (t : String) : Bool := !t.isEmpty && t.all (fun c => c.isAlphanum || c == '_')
+def wordTok (t : String) : Bool := !t.isEmpty && t.toList.all (fun c => c.isAlphanum || c == '_')
+
+/-- a column name of the header line: a word that is not one of the loaders' keywords `end` / `out` (a header line
+`… end …` would be taken for an event footer by the header scan) -/
+def colTok (c : String) : Bool := wordTok c && c != "end" && c != "out"
 
 def grammarOscar (F : OscarSpec) : Bool :=
-  F.cols.all wordTok &&
+  F.cols.all colTok &&
   notScanned (analyse F.h2) && notScanned (analyse F.h3) && !hasSub F.h2 "\n" && !hasSub F.h3 "\n" &&
+  -- the version line is not empty (a file ending in an empty line without newline does not exist as text)
+  !F.h3.isEmpty &&
   F.events.all (fun e =>
     e.parts.all (fun r => !r.isEmpty && r.all numTok && colsOk F.fmt r.length &&
       fieldsOk (colKinds F.fmt (attrsOf F) r.length) r) &&
